@@ -324,6 +324,33 @@ pub fn act_bracket(sim: &mut Sim, ctx: &mut Ctx, kind: BracketKind) -> Option<Tx
     let lb = ctx.rng.pick(&liabs).clone();
     let a_info = ctx.world.bank_info(&ab.bank_pk)?.clone();
     let l_info = ctx.world.bank_info(&lb.bank_pk)?.clone();
+    // tiny account: the collateral's price is set so that the account's unweighted assets are
+    // worth a few dollars - just above the five-dollar close-out threshold (where the premium and
+    // end-health rules still apply) or just below it (where they do not)
+    let mut tiny = false;
+    if ctx.rng.chance(1, 5) && assets.len() == 1 && a_info.oracle != crate::world::OracleKind::Fixed && a_info.staked.is_none() {
+        if let Some(bank) = model::bank_of(&sim.store, &ab.bank_pk) {
+            use num_traits::ToPrimitive;
+            let amount = model::q_w(ab.asset_shares) * model::q_w(bank.asset_share_value) / model::pow10(bank.mint_decimals as u32);
+            let target_cents = *ctx.rng.pick(&[420u64, 505, 560, 640, 780, 950]);
+            if amount > model::qi(0) {
+                let np = (model::qu(target_cents) * model::qu(10_000) / amount).floor().to_integer().to_u64().unwrap_or(0);
+                if np >= 1 {
+                    let now = sim.clock.unix_timestamp;
+                    if let Some(info) = ctx.world.bank_info_mut(&ab.bank_pk) {
+                        info.price_micro = np;
+                        let ev = match info.oracle {
+                            crate::world::OracleKind::Pyth => Event::SetAccount { key: info.oracle_key, account: Some(crate::fixtures::pyth_account(info.feed_id, &crate::world::pyth_from_micro(np, info.expo.min(-8), 0, 0, now))), why: "oracle_jump" },
+                            _ => Event::SetAccount { key: info.oracle_key, account: Some(crate::fixtures::swb_account(&crate::world::swb_from_micro(np, 0, now))), why: "oracle_jump" },
+                        };
+                        sim.apply(ev);
+                        sim.stats.fault("tx_bracket_tiny_account");
+                        tiny = true;
+                    }
+                }
+            }
+        }
+    }
     // operator churn aimed at the bracket: the bank about to be seized from was switched to
     // reduce-only after the deposit (its collateral then counts for nothing towards NEW borrowing,
     // but fully for liquidation purposes - seizing it is still seizing value)
@@ -389,7 +416,19 @@ pub fn act_bracket(sim: &mut Sim, ctx: &mut Ctx, kind: BracketKind) -> Option<Tx
         }
     };
     let rm = risk_metas(&sim.store, &target, None, None);
-    let repay_amt = pick_amount(ctx.rng, debt.max(1));
+    let mut repay_amt = pick_amount(ctx.rng, debt.max(1));
+    if tiny {
+        // repay a dollar or two, so that the seizure sized from it stays within the few dollars
+        // of collateral there are
+        use num_traits::ToPrimitive;
+        if let Ok(vl) = crate::refm::read_oracle(&sim.store, &l_bank, sim.clock) {
+            if vl.ema.price > model::qi(0) {
+                let dollars = model::qr(*ctx.rng.pick(&[100i128, 150, 200, 300]), 100);
+                let amt = (dollars * model::pow10(l_bank.mint_decimals as u32) / &vl.ema.price).floor().to_integer().to_u64().unwrap_or(1);
+                repay_amt = amt.clamp(1, debt.max(1));
+            }
+        }
+    }
     // value-matched withdrawal around the premium boundary (rough; C10 judges by Ref)
     let est_w = {
         let va = crate::refm::read_oracle(&sim.store, &a_bank, sim.clock).ok();
